@@ -599,6 +599,16 @@ func configure(g *gen) {
 			{Callee: "_.Set", Stmts: []string{"c := %1 ++ [GoRt.GEv.set %2 %3]"}},
 			{Callee: "accounts[]", Values: []string{"(GoRt.mapGet accounts %1).1", "(GoRt.mapGet accounts %1).2"}, Ts: []T{tStr, tBool}},
 		}})
+	// PanicsHandler: a middleware that recovers whatever the rest of the chain panics with and records status 500.
+	// `c.Next()` is the parameter `next` (the context afterwards and the panic it ended with, if any)
+	add(FnSpec{Pkg: "pkg/handlers", Func: "PanicsHandler", Lean: "PanicsHandler", Inner: true, DeferRecover: true, PnIndex: 1,
+		Extra: []string{"(next : List GoRt.REv → List GoRt.REv × Option Panic)"},
+		MutParams: []string{"c"}, RetExtra: []string{"c", "(none : Option Panic)"}, RetExtraT: []string{"List GoRt.REv", "Option Panic"},
+		Types: map[string]T{"*rux.Context": {"opaque", "List GoRt.REv"}},
+		Exts: []Ext{
+			{Callee: "c.Next", Stmts: []string{"let %t := next c", "c := %t.1", "if let some p := %t.2 then return (c, some p)"}},
+			{Callee: "c.Resp.WriteHeader", Stmts: []string{"c := c ++ [GoRt.REv.wh %1]"}},
+		}})
 	oreq := T{"opaque", "GoRt.OReq"}
 	add(FnSpec{Pkg: "pkg/handlers", Func: "HTTPMethodOverrideHandler", Lean: "HTTPMethodOverrideHandler", Inner: true,
 		MutParams: []string{"r"}, Prologue: []string{"let mut served : Option GoRt.OReq := none"},
